@@ -352,6 +352,29 @@ func TestC15(t *testing.T) {
 		}
 		c.Case(true, "directed|"+k.String(), "directed", c15MemClass(k.m, k.p))
 	}
+	// concurrency part: Key/IDKey are package-level functions that real callers run from many goroutines.
+	// Small memory, so that the H0/initial-block phase is a large share of every call and phases overlap often.
+	{
+		failure, calls, ks := concPart("C15", ev.Scale(2400, 12000), func(d *drbg, w int) []concJob {
+			var jobs []concJob
+			for i := 0; i < 6; i++ {
+				k := c15Case{mode: ref.Argon2i + d.intn(2), pwd: d.bytes(d.intn(33)), salt: d.bytes(8 + d.intn(9)),
+					t: uint32(1 + d.intn(2)), p: uint8(1 + d.intn(2)), keyLen: uint32([]int{16, 32, 65, 4}[d.intn(4)])}
+				k.m = uint32(1 + d.intn(24))
+				jobs = append(jobs, concJob{name: k.String(), run: k.run, want: ref.Argon2(k.mode, k.pwd, k.salt, nil, nil, k.t, k.m, uint32(k.p), k.keyLen)})
+			}
+			return jobs
+		})
+		if failure != "" {
+			what := "concurrent calls: " + failure
+			c.Violation(what, "")
+			t.Fatalf("VF-VIOLATION: property=C15 %s", what)
+		}
+		for _, k := range ks {
+			c.Case(true, fmt.Sprintf("concurrent|k=%d", k), fmt.Sprintf("concurrency:k=%d", k))
+		}
+		c.ClassN("concurrency:calls", calls)
+	}
 	// outside the statement's domain: time = 0 / threads = 0 must not return a key (they panic explicitly)
 	for _, f := range []func() []byte{
 		func() []byte { return argon2.Key([]byte("p"), []byte("s"), 0, 32, 1, 32) },
